@@ -410,6 +410,12 @@ func (d *V2) Apply(op model.Op) (res model.Result) {
 			return fail(err)
 		}
 		return model.Result{Desc: v2Desc(out.TableDescription)}
+	case "SetMetrics":
+		v2client.SetItemCollectionMetrics(c, map[string][]types.ItemCollectionMetrics{
+			"tbl":  {{ItemCollectionKey: map[string]types.AttributeValue{"pk": &types.AttributeValueMemberS{Value: "a"}}}},
+			"tbl2": {{ItemCollectionKey: map[string]types.AttributeValue{"pk": &types.AttributeValueMemberS{Value: "b"}}}},
+		})
+		return model.Result{}
 	case "NativeGet":
 		_ = c.GetNativeInterpreter()
 		return model.Result{}
@@ -485,7 +491,7 @@ func (d *V2) Apply(op model.Op) (res model.Result) {
 		in := &dynamodb.QueryInput{TableName: aws.String(op.Table), IndexName: strPtrOrNil(op.Index),
 			KeyConditionExpression: strPtrOrNil(op.KeyCond), FilterExpression: strPtrOrNil(op.Filter),
 			ExpressionAttributeNames: v2Names(op.Names), ExpressionAttributeValues: ToV2Item(op.Values),
-			ExclusiveStartKey: ToV2Item(op.StartKey), ConsistentRead: boolPtrOrNil(op.Consistent)}
+			ExclusiveStartKey: ToV2Item(op.StartKey), ConsistentRead: boolPtrOrNil(op.Consistent), ProjectionExpression: strPtrOrNil(op.Projection)}
 		if op.Limit > 0 {
 			in.Limit = aws.Int32(int32(op.Limit))
 		}
@@ -500,7 +506,7 @@ func (d *V2) Apply(op model.Op) (res model.Result) {
 	case "Scan":
 		in := &dynamodb.ScanInput{TableName: aws.String(op.Table), IndexName: strPtrOrNil(op.Index),
 			FilterExpression: strPtrOrNil(op.Filter), ExpressionAttributeNames: v2Names(op.Names), ExpressionAttributeValues: ToV2Item(op.Values),
-			ExclusiveStartKey: ToV2Item(op.StartKey), ConsistentRead: boolPtrOrNil(op.Consistent)}
+			ExclusiveStartKey: ToV2Item(op.StartKey), ConsistentRead: boolPtrOrNil(op.Consistent), ProjectionExpression: strPtrOrNil(op.Projection)}
 		if op.Limit > 0 {
 			in.Limit = aws.Int32(int32(op.Limit))
 		}
@@ -532,6 +538,14 @@ func (d *V2) Apply(op model.Op) (res model.Result) {
 			return fail(err)
 		}
 		r := model.Result{}
+		if len(out.ItemCollectionMetrics) > 0 {
+			var ms []string
+			for t, l := range out.ItemCollectionMetrics {
+				ms = append(ms, fmt.Sprintf("%s:%d", t, len(l)))
+			}
+			sort.Strings(ms)
+			r.Metrics = strings.Join(ms, " ")
+		}
 		tables := make([]string, 0, len(out.UnprocessedItems))
 		for t := range out.UnprocessedItems {
 			tables = append(tables, t)
@@ -562,6 +576,8 @@ func (d *V2) Apply(op model.Op) (res model.Result) {
 				ka.Keys = append(ka.Keys, ToV2Item(k))
 			}
 			ka.ConsistentRead = boolPtrOrNil(op.Consistent)
+			ka.ProjectionExpression = strPtrOrNil(tb.Projection)
+			ka.ExpressionAttributeNames = v2Names(tb.Names)
 			in.RequestItems[tb.Table] = ka
 		}
 		out, err := c.BatchGetItem(ctx, in)
